@@ -74,10 +74,8 @@ int main()
     // which build configuration of Sha256.cpp this harness was compiled in (tools/areas/sha.py builds both)
     else if(l.ntok == 2 && strcmp(l.tok[0], "variant") == 0)
     {
-#if defined(_SHA256_UNROLL2)
-      const char* mine = "u2";
-#elif defined(_SHA256_UNROLL)
-      const char* mine = "unroll";
+#ifdef VERIF_SHA_VARIANT
+      const char* mine = VERIF_SHA_VARIANT;   // told by tools/areas/sha.py (a #define inside Sha256.cpp is not visible here)
 #else
       const char* mine = "rolled";
 #endif
